@@ -95,10 +95,11 @@ Record wstate := mk_wstate {
   clock : option N;            (* None: blocked for ever inside a probe *)
   stopped : bool;              (* returned because the context was done *)
   probed : list N;             (* addresses dialled, newest first *)
+  dial_times : list N;         (* the clock at each dial, newest first (history) *)
   reported : list (N * info)   (* sent to the result channel, newest first *)
 }.
 
-Definition w_init (t0 : N) : wstate := mk_wstate (Some t0) false [] [].
+Definition w_init (t0 : N) : wstate := mk_wstate (Some t0) false [] [] [].
 
 (* one iteration of ipWorker's loop for address [a]; [dl] is the context's deadline *)
 Definition worker_step (tm : timers) (dl : N) (m : dev_map) (port : N) (hosts : N -> behaviour)
@@ -107,13 +108,13 @@ Definition worker_step (tm : timers) (dl : N) (m : dev_map) (port : N) (hosts : 
   match clock st with
   | None => st
   | Some t =>
-    if dl <=? t then mk_wstate (Some t) true (probed st) (reported st)      (* <-ctx.Done() *)
+    if dl <=? t then mk_wstate (Some t) true (probed st) (dial_times st) (reported st)      (* <-ctx.Done() *)
     else if skip m port a then st                                              (* continue *)
     else
       match probe_time tm (hosts a) with
-      | None => mk_wstate None false (a :: probed st) (reported st)
+      | None => mk_wstate None false (a :: probed st) (t :: dial_times st) (reported st)
       | Some d =>
-        mk_wstate (Some (t + d)) false (a :: probed st)
+        mk_wstate (Some (t + d)) false (a :: probed st) (t :: dial_times st)
                   (match probe_result (hosts a) with
                    | Some i => (a, i) :: reported st
                    | None => reported st
@@ -134,6 +135,14 @@ Definition run_time tm dl m port hosts (work : list (list N)) : option N :=
 
 Definition run_reported tm dl m port hosts (work : list (list N)) : list (N * info) :=
   flat_map (fun addrs => reported (worker_run tm dl m port hosts addrs 0)) work.
+
+Definition run_dial_times tm dl m port hosts (work : list (list N)) : list N :=
+  flat_map (fun addrs => dial_times (worker_run tm dl m port hosts addrs 0)) work.
+
+(* Driver.Discover: MaxDiscoverDurationSeconds > 0 gives the run's context a deadline of that many
+   seconds (time unit here: ms); 0 or less: no deadline *)
+Definition discover_deadline (max_seconds : N) : option N :=
+  if max_seconds =? 0 then None else Some (1000 * max_seconds).
 
 Definition run_probed tm dl m port hosts (work : list (list N)) : list N :=
   flat_map (fun addrs => probed (worker_run tm dl m port hosts addrs 0)) work.
